@@ -35,7 +35,7 @@ Definition lit_denote (ty : ltype) (l : literal) : option value :=
   match ty, l with
   | TInt f, LInt z => if (is_signed f || is_unsigned f) && in_rangeb f z then Some (VInt f z) else None
   | TInt f, LStr s =>
-      match int_text s with
+      match (if is_signed f then int_text s else nonempty_digits s) with
       | Some z => if (is_signed f || is_unsigned f) && in_rangeb f z then Some (VInt f z) else None
       | None => None
       end
@@ -46,7 +46,8 @@ Definition lit_denote (ty : ltype) (l : literal) : option value :=
       else if bytes_eqb s s_false then Some (VBool false) else None
   | TEnum labels, LStr s =>
       match parse_sint s, parse_uint s, labelled labels s with
-      | None, None, [(lb, i)] => Some (VEnum i lb)        (* by name; the name does not look like a number *)
+      | None, None, [(lb, i)] => if in_sb 32 i then Some (VEnum i lb) else None
+                                                 (* by name; the name does not look like a number *)
       | _, _, _ => None
       end
   | _, _ => None
@@ -56,10 +57,19 @@ Definition lit_denote (ty : ltype) (l : literal) : option value :=
 Definition named (n : ident) (kids : list snode) (c : content) : list (snode * option dnode) :=
   filter (fun kd => ident_eqb (sname (fst kd)) n) (combine kids c).
 
+Definition ctx := (list snode * content)%type.
+
+(** the contexts reached through every entry of a list *)
+Definition reach_rows (f : content -> option (list ctx)) (rows : list dnode) : option (list ctx) :=
+  fold_right (fun r acc =>
+                match r, acc with
+                | DCont rc, Some l => match f rc with Some l' => Some (l' ++ l) | None => None end
+                | _, _ => None
+                end) (Some []) rows.
+
 (** contexts (definitions + content) a container path leads to; None: not a path of when-free
     containers and lists of this schema, or data not shaped like the schema *)
-Fixpoint reach (kids : list snode) (c : content) (p : list ident) {struct p}
-  : option (list (list snode * content)) :=
+Fixpoint reach (kids : list snode) (c : content) (p : list ident) {struct p} : option (list ctx) :=
   match p with
   | [] => Some [(kids, c)]
   | n :: p' =>
@@ -75,13 +85,7 @@ Fixpoint reach (kids : list snode) (c : content) (p : list ident) {struct p}
           if has_when (SCont m []) then None else
           match d with
           | None => Some []
-          | Some (DList rows) =>
-              fold_right (fun r acc =>
-                            match r, acc with
-                            | DCont rc, Some l =>
-                                match reach (skids row) rc p' with Some l' => Some (l' ++ l) | None => None end
-                            | _, _ => None
-                            end) (Some []) rows
+          | Some (DList rows) => reach_rows (fun rc => reach (skids row) rc p') rows
           | Some _ => None
           end
       | _ => None
@@ -89,8 +93,8 @@ Fixpoint reach (kids : list snode) (c : content) (p : list ident) {struct p}
   end.
 
 (** the reading of leaf [lf] in one context: its type and the value Get() must deliver (stored, else default) *)
-Definition reading (lf : ident) (ctx : list snode * content) : option (ltype * option value) :=
-  match named lf (fst ctx) (snd ctx) with
+Definition reading (lf : ident) (cx : ctx) : option (ltype * option value) :=
+  match named lf (fst cx) (snd cx) with
   | [(SLeaf m ty false dflt, d)] =>
       match nm_when m with
       | Some _ => None
@@ -129,6 +133,20 @@ Definition wf_valb (v : value) : bool :=
   | _ => true
   end.
 
+(** one reading against the literal's value [b], accumulated as "some reading satisfies it" *)
+Definition reading_holds (lf : ident) (o : xop) (b : value) (cx : ctx) (acc : option bool) : option bool :=
+  match reading lf cx, acc with
+  | Some (_, None), Some r => Some r                     (* unset: satisfies nothing *)
+  | Some (_, Some v), Some r =>
+      if wf_valb v then
+        match spec_sgn v b with
+        | Some s => Some (op_holds o s || r)
+        | None => None
+        end
+      else None
+  | _, _ => None
+  end.
+
 (** does the comparison hold?  None: the specification makes no claim (literal not of the leaf's type,
     path not in the schema, ...) *)
 Definition spec_cmp (kids : list snode) (c : content) (e : cmp_expr) : option bool :=
@@ -136,19 +154,7 @@ Definition spec_cmp (kids : list snode) (c : content) (e : cmp_expr) : option bo
   | Some ty, Some ctxs =>
       match lit_denote ty (ce_lit e) with
       | None => None
-      | Some b =>
-          fold_right (fun ctx acc =>
-                        match reading (ce_leaf e) ctx, acc with
-                        | Some (_, None), Some r => Some r
-                        | Some (_, Some v), Some r =>
-                            if wf_valb v then
-                              match spec_sgn v b with
-                              | Some s => Some (op_holds (ce_op e) s || r)
-                              | None => None
-                              end
-                            else None
-                        | _, _ => None
-                        end) (Some false) ctxs
+      | Some b => fold_right (reading_holds (ce_leaf e) (ce_op e) b) (Some false) ctxs
       end
   | _, _ => None
   end.
